@@ -230,6 +230,42 @@ def hasWideNumL : List Pat → Bool
   | p :: ps => hasWideNum p || hasWideNumL ps
 end
 
+mutual
+def tyBeq : Ty → Ty → Bool
+  | .bool, .bool => true
+  | .u8, .u8 => true
+  | .enum a, .enum b => tyBeqL a b
+  | .tuple a, .tuple b => tyBeqL a b
+  | .strct a, .strct b => tyBeqL a b
+  | _, _ => false
+def tyBeqL : List Ty → List Ty → Bool
+  | [], [] => true
+  | a :: as, b :: bs => tyBeq a b && tyBeqL as bs
+  | _, _ => false
+end
+
+def isTupleTy : Ty → Bool
+  | .tuple (_ :: _) => true
+  | _ => false
+
+/-- two tuple-typed components of the same type among `ts`. -/
+def twinTuples : List Ty → Bool
+  | [] => false
+  | t :: ts => (isTupleTy t && ts.any (tyBeq t)) || twinTuples ts
+
+mutual
+/-- The scrutinee type contains a tuple with two tuple components of equal type — the shape on which the
+type checker rejects patterns like `((_, false), (true, true))` with "Mismatched types". -/
+def hasTwinTuples : Ty → Bool
+  | .enum ts => hasTwinTuplesL ts
+  | .tuple ts => twinTuples ts || hasTwinTuplesL ts
+  | .strct ts => hasTwinTuplesL ts
+  | _ => false
+def hasTwinTuplesL : List Ty → Bool
+  | [] => false
+  | t :: ts => hasTwinTuples t || hasTwinTuplesL ts
+end
+
 /-- Position of the interior catch-all arm (`interior_catch_all_arm_position`). -/
 def interiorCatchAll (arms : List Pat) : Option Nat :=
   findIdx Pat.isCatchAll (arms.take (arms.length - 1)) 0
@@ -302,8 +338,9 @@ def answer (line : String) : String :=
       let whyRun : List String :=
         if parts.run then [] else
         if rtOK && arms.any Pat.hasOrCatchAll then ["or-catchall-alt-runtime"] else ["unclassified-run"]
+      let typeErr := head == "other:TypeError" && hasTwinTuples ty
       let whyOther : List String := if implOther then ["unclassified-other"] else []
-      let why := (whyExh ++ whyUnr ++ whyWit ++ whyRun ++ whyOther).eraseDups
+      let why := if typeErr then ["typecheck-twin-tuples"] else (whyExh ++ whyUnr ++ whyWit ++ whyRun ++ whyOther).eraseDups
       let prop := parts.all && !implOther
       let frag := arms.all (·.hasTy ty)
       s!"{mHead} unreachable={showIdxs mUnr} agree={b01 agree} prop={b01 prop} why={joinPlus why} pe={b01 parts.exh} pw={b01 parts.wit} pu={b01 parts.unr} pr={b01 parts.run} bf={b01 (exhaustiveBF ty arms)} fragment={b01 frag} witness={witnessKey} arms={arms.length} ran={b01 (!runs.isEmpty)}"
